@@ -38,6 +38,11 @@ func newCase(t *rapid.T, rec *ev.Rec, maxDepth int, prop string) *caseT {
 	genViews(t, d)
 	g := &qgen{t: t, db: d}
 	tq := g.genTop(maxDepth)
+	return finishCase(t, rec, d, tq, prop)
+}
+
+// finishCase: known-class exclusion, model evaluation, real database, parse.
+func finishCase(t *rapid.T, rec *ev.Rec, d *dbT, tq *topQ, prop string) *caseT {
 	c := &caseT{d: d, tq: tq, text: tq.String(), ops: tq.q.ops()}
 	if c.knownCase(rec, prop) {
 		return nil
